@@ -146,6 +146,93 @@ def emit(repo, spec, H):
     out.append("Definition strip_wrap (off dim hs : Z) : Z := %s." % wrap)
     out.append("Definition strip_carry (off dim hs : Z) : Z := %s." % carry)
 
+    # ---- traversal: under which tags are members of a vgroup copied, and which tags do the top-level passes search?
+    f = "mfhdf/hrepack/hrepack_list.c"
+    rawl = H.raw(repo, f)
+    envl = {}
+    envl.update(H.defines(repo, f))
+    vb = H.func_body(rawl, "vgroup_insert")
+    kinds = {"sds": [], "image": [], "vs": [], "vg": []}
+    pending = []
+    for m in re.finditer(r"case\s+([A-Za-z_0-9]+)\s*:|\b(copy_sds|copy_gr|copy_vs|Vattach)\s*\(", vb):
+        if m.group(1):
+            pending.append(H.ceval(m.group(1), envl))
+        elif pending:
+            k = {"copy_sds": "sds", "copy_gr": "image", "copy_vs": "vs", "Vattach": "vg"}[m.group(2)]
+            kinds[k] += pending
+            pending = []
+    if pending or not kinds["sds"] or not kinds["image"]:
+        raise ValueError("vgroup_insert: tag switch has an unexpected shape")
+
+    def search_tags(fn, refvar):
+        body = H.func_body(rawl, fn)
+        tags = []
+        for m in re.finditer(r"\blist_table_search\w*\s*\(\s*list_tbl\s*,\s*([A-Za-z_0-9]+)\s*,([^;{]*?)\b%s\s*\)" % refvar, body):
+            a = m.group(1)
+            try:
+                tags.append(H.ceval(a, envl))
+            except Exception:
+                t = re.search(r"\b%s\s*\[\s*\]\s*=\s*\{([^}]*)\}" % re.escape(a), rawl)
+                if not t:
+                    raise ValueError("%s: cannot resolve the tag list %s" % (fn, a))
+                tags += [H.ceval(x, envl) for x in t.group(1).split(",") if x.strip()]
+        if not tags:
+            raise ValueError("%s: no table search found" % fn)
+        return tags
+    out.append("(* %s: vgroup_insert: member tags copied with copy_sds / copy_gr / copy_vs; groups *)" % f)
+    for k, nm in (("sds", "insert_sds_tags"), ("image", "insert_image_tags"), ("vs", "insert_vs_tags"), ("vg", "insert_vg_tags")):
+        out.append("Definition %s : list Z := [%s]." % (nm, "; ".join(map(str, kinds[k]))))
+    out.append("(* %s: list_sds / list_gr / list_vs: tags searched to skip objects already copied as vgroup members *)" % f)
+    out.append("Definition list_sds_search_tags : list Z := [%s]." % "; ".join(map(str, search_tags("list_sds", "sds_ref"))))
+    out.append("Definition list_gr_search_tags : list Z := [%s]." % "; ".join(map(str, search_tags("list_gr", "gr_ref"))))
+    out.append("Definition list_vs_search_tags : list Z := [%s]." % "; ".join(map(str, search_tags("list_vs", "ref"))))
+
+    # ---- metadata plumbing of the copy functions: which variables does the inquiring call fill, which does the
+    # creating call receive, and is any of them assigned in between?
+    def call_args(body, fname, nth=0):
+        ms = list(re.finditer(r"\b%s\s*\(" % fname, body))
+        if len(ms) <= nth:
+            raise ValueError("call of %s not found" % fname)
+        i = ms[nth].end()
+        depth, j = 1, i
+        while depth:
+            depth += {"(": 1, ")": -1}.get(body[j], 0)
+            j += 1
+        args, cur, d = [], "", 0
+        for ch in body[i:j - 1]:
+            if ch == "," and d == 0:
+                args.append(cur)
+                cur = ""
+            else:
+                d += {"(": 1, ")": -1}.get(ch, 0)
+                cur += ch
+        args.append(cur)
+        return ["".join(a.split()).lstrip("&") for a in args], ms[nth].start(), j
+
+    def plumbing(name, f, fn, inq, create, extra=()):
+        body = H.func_body(H.raw(repo, f), fn)
+        ia, i0, i1 = call_args(body, inq)
+        ca, c0, c1 = call_args(body, create)
+        if c0 < i1:
+            raise ValueError("%s: %s is called before %s" % (fn, create, inq))
+        between = body[i1:c0]
+        reass = [v for v in ca if v in ia and re.fullmatch(r"[A-Za-z_]\w*", v) and
+                 re.search(r"(?<![=!<>])\b%s\s*(?:\[[^\]]*\]\s*)?=(?!=)" % re.escape(v), between)]
+        out.append("(* %s: %s: %s(%s) ... %s(%s) *)" % (f, fn, inq, ", ".join(ia), create, ", ".join(ca)))
+        out.append("Definition %s_inquired : list (list Z) := [%s]." % (name, "; ".join(_bytes(a) for a in ia)))
+        out.append("Definition %s_created : list (list Z) := [%s]." % (name, "; ".join(_bytes(a) for a in ca)))
+        out.append("Definition %s_reassigned : list (list Z) := [%s]." % (name, "; ".join(_bytes(a) for a in reass)))
+        for label, fcall, nth in extra:
+            xa, _, _ = call_args(body, fcall, nth)
+            out.append("Definition %s_%s : list (list Z) := [%s]." % (name, label, "; ".join(_bytes(a) for a in xa)))
+    plumbing("copy_gr", "mfhdf/hrepack/hrepack_gr.c", "copy_gr", "GRgetiminfo", "GRcreate",
+             [("reqil", "GRreqimageil", 0), ("read", "GRreadimage", 0), ("write", "GRwriteimage", 0)])
+    plumbing("copy_sds", "mfhdf/hrepack/hrepack_sds.c", "copy_sds", "SDgetinfo", "SDcreate",
+             [("create2", "SDcreate", 1)])
+    plumbing("copy_vs", "mfhdf/hrepack/hrepack_vs.c", "copy_vs", "VSinquire", "VSsetinterlace",
+             [("fdefine", "VSfdefine", 0), ("setfields_out", "VSsetfields", 0), ("setfields_in", "VSsetfields", 1),
+              ("read", "VSread", 0), ("write", "VSwrite", 0), ("setname", "VSsetname", 0), ("setclass", "VSsetclass", 0)])
+
     for ent in spec.get("conds", []):
         f, fn, anchor, name, params, subst = ent[:6]
         txt = H.src(repo, f)
